@@ -126,3 +126,19 @@ Theorem C09_str_refill_terminates :
               List.length (UStr.u_trim s) = target.
 Proof. exact refill_model_fuel. Qed.
 Print Assumptions C09_str_refill_terminates.
+
+(* --- floats: the conditioned base value always exists -------------------------------------- *)
+From NV Require Import Lemmas.ArbFloatLemmas.
+
+(* the 'outer loop with the 1000-step byte mangling terminates within the model's fuel for
+   every byte string and returns a value satisfying its condition (finite / not NaN) *)
+Theorem C09_float_base_total :
+  forall (is64 : bool) (k : base_kind) (bs : bytes),
+    exists x r, base_value is64 k (List.length bs + 2) bs = Some (x, r) /\ base_cond is64 k x = true.
+Proof. exact base_value_model_fuel. Qed.
+Print Assumptions C09_float_base_total.
+
+Theorem C09_float_inner_never_out_of_fuel :
+  forall (is64 : bool) (d : decl) (vs : list validator) (bs : bytes), arb_float_inner is64 d vs bs <> None.
+Proof. exact arb_float_inner_some. Qed.
+Print Assumptions C09_float_inner_never_out_of_fuel.
